@@ -87,6 +87,23 @@ type script struct {
 	// further bulks sent through the SAME client object after this one (same topology; own
 	// scripts, shuffle seed, context and payload)
 	More []script `json:"more,omitempty"`
+	// interleaving class: the replicas are gated fakes, every shard visit follows a planned schedule
+	Ilv *ilvScript `json:"ilv,omitempty"`
+	// ragged class with a shard that has more replicas than the last shard of its tier
+	Ragged bool `json:"ragged,omitempty"`
+}
+
+// one step of a visit's schedule: "s" = the call of replica I begins (it observes the context),
+// "r" = it returns, "x" = the request context is cancelled
+type evJ struct {
+	K string `json:"k"`
+	I int    `json:"i"`
+}
+
+// planned schedule per shard visit (by ordinal of the visit in the run); steps that are not
+// applicable when their turn comes are skipped, what was really done is recorded
+type ilvScript struct {
+	Visits [][]evJ `json:"visits"`
 }
 
 type call struct {
@@ -111,6 +128,12 @@ type result struct {
 	// number of completed shard visits when the caller's context became done (nil: it never did)
 	CancelAt *int     `json:"cancel_at,omitempty"`
 	More     []result `json:"more,omitempty"` // results of script.More, in order
+	// interleaving class: observed schedule and store-side accept log per visit, context done on entry
+	Sched [][]evJ `json:"sched,omitempty"`
+	Accs  [][]int `json:"accs,omitempty"`
+	D0    bool    `json:"d0,omitempty"`
+	// ragged class: StoreDocuments panicked
+	Panicked bool `json:"panicked,omitempty"`
 }
 
 // ---------------------------------------------------------------- generators
@@ -430,6 +453,9 @@ func genScripts(seed uint64, tier string, tries int) []script {
 	for i := 0; i < nrand; i++ {
 		out = append(out, genRandom(r, tries))
 	}
+	// new streams draw from forks so that the scripts above stay what they were
+	out = append(out, genIlv(r.Fork(), tier, tries)...)
+	out = append(out, genRagged(r.Fork(), tier, tries)...)
 	return out
 }
 
@@ -451,6 +477,28 @@ type runCtx struct {
 	pendingDead bool // a hanging call of the visit in progress let the context expire
 	total       int  // completed visits
 	cancelAt    *int
+	// interleaving class
+	ilv      bool
+	cond     *sync.Cond
+	arrived  []*icall // gated calls of the visit in progress
+	curSched []evJ
+	curAccs  []int
+	scheds   [][]evJ
+	accs     [][]int
+	okReps   map[string]bool // replicas whose fake returned success for this bulk
+	stopped  bool
+	expired  bool
+}
+
+// a replica call held by the controller
+type icall struct {
+	tier       string
+	shard, rep int
+	o          int
+	state      int // 0 arrived, 1 in flight, 2 returned
+	permit     chan struct{}
+	release    chan struct{}
+	ack        chan struct{}
 }
 
 type payload struct {
@@ -474,6 +522,9 @@ type fake struct {
 
 func (f *fake) Bulk(ctx context.Context, in *storeapi.BulkRequest, _ ...grpc.CallOption) (*emptypb.Empty, error) {
 	rc := cur
+	if rc.ilv {
+		return f.bulkIlv(rc, ctx, in)
+	}
 	rc.mu.Lock()
 	key := fmt.Sprintf("%s/%d/%d", f.tier, f.shard, f.rep)
 	n := rc.ncall[key]
@@ -578,11 +629,19 @@ func (m *collector) done(short bool) {
 	open := k < len(flags) && flags[k]
 	rc.total++
 	doCancel := false
-	if !rc.dead && (rc.pendingDead || (rc.sc.Ctx != nil && rc.sc.Ctx.AfterVisits == rc.total)) {
+	if !rc.dead && !rc.expired && (rc.pendingDead || (rc.sc.Ctx != nil && rc.sc.Ctx.AfterVisits == rc.total)) {
 		rc.dead = true
 		n := rc.total
 		rc.cancelAt = &n
 		doCancel = rc.pendingDead || rc.sc.Ctx.Mode != "deadline"
+	}
+	if rc.ilv {
+		if doCancel {
+			rc.expired = true
+			rc.cancel() // under the lock: no gated call can begin between the cancel and its record
+			doCancel = false
+		}
+		rc.closeVisitIlv(rc.expired && rc.cancelAt != nil && *rc.cancelAt == rc.total)
 	}
 	rc.mu.Unlock()
 	if doCancel {
@@ -689,13 +748,36 @@ func runScript(idx int, sc *script) result {
 
 // one StoreDocuments call on the (possibly already used) client; stop = the client cannot be used further
 func runBulk(client *bulk.SeqDBClient, sc *script, self int, pays []payload) (res result, stop bool) {
-	rc := &runCtx{sc: sc, nvisit: map[string]int{}, ncall: map[string]int{}, pays: pays, self: self}
+	rc := &runCtx{sc: sc, nvisit: map[string]int{}, ncall: map[string]int{}, pays: pays, self: self,
+		ilv: sc.Ilv != nil, okReps: map[string]bool{}}
+	rc.cond = sync.NewCond(&rc.mu)
 	cur = rc
+	if rc.ilv {
+		go rc.controller()
+	}
 	done := make(chan struct{})
 	go func() {
 		defer close(done)
 		defer func() {
 			if p := recover(); p != nil {
+				if sc.Ragged && strings.Contains(fmt.Sprint(p), "index out of range") {
+					// the latent panic of ragged tiers (ModelFlat.v): the goroutines started before it
+					// still make their calls; the visit is not closed by the circuit
+					time.Sleep(3 * time.Millisecond)
+					rc.mu.Lock()
+					res.Panicked = true
+					if len(rc.pending) > 0 {
+						v := visit{Tier: rc.pending[0].tier, Shard: rc.pending[0].shard, Calls: []call{}}
+						for _, pc := range rc.pending {
+							v.Calls = append(v.Calls, pc.c)
+						}
+						sort.SliceStable(v.Calls, func(i, j int) bool { return v.Calls[i].Rep < v.Calls[j].Rep })
+						rc.visits = append(rc.visits, v)
+						rc.pending = rc.pending[:0]
+					}
+					rc.mu.Unlock()
+					return
+				}
 				rc.mu.Lock()
 				rc.viol = append(rc.viol, fmt.Sprintf("panic|StoreDocuments panicked: %v", p))
 				rc.mu.Unlock()
@@ -712,6 +794,18 @@ func runBulk(client *bulk.SeqDBClient, sc *script, self int, pays []payload) (re
 		for s, b := range cb {
 			attach(b, "cold", s, len(sc.Cold[s].Open) > 0 && sc.Cold[s].Open[0])
 		}
+		// execution deadline of the circuits: 3 ms for the scripted timeouts, none that matters
+		// while the controller holds gated calls
+		for _, b := range append(append([]*circuitbreaker.CircuitBreaker{}, hb...), cb...) {
+			want := breakerCfg.Timeout
+			if rc.ilv {
+				want = 30 * time.Second
+			}
+			if cfg := b.Circuit.Config(); cfg.Execution.Timeout != want {
+				cfg.Execution.Timeout = want
+				b.Circuit.SetConfigThreadSafe(cfg)
+			}
+		}
 		rand.Seed(sc.Shuffle)
 		docs := append([]byte(nil), pays[self].docs...)
 		metas := append([]byte(nil), pays[self].metas...)
@@ -725,6 +819,7 @@ func runBulk(client *bulk.SeqDBClient, sc *script, self int, pays []payload) (re
 		if sc.Ctx != nil && sc.Ctx.AfterVisits == 0 {
 			zero := 0
 			rc.dead, rc.cancelAt = true, &zero
+			rc.expired, res.D0 = true, true
 			rc.cancel()
 		}
 		err := client.StoreDocuments(ctx, int(pays[self].count), docs, metas)
@@ -740,6 +835,14 @@ func runBulk(client *bulk.SeqDBClient, sc *script, self int, pays []payload) (re
 	}
 	rc.mu.Lock()
 	defer rc.mu.Unlock()
+	rc.stopped = true
+	rc.cond.Broadcast()
+	if rc.ilv {
+		res.Sched, res.Accs = rc.scheds, rc.accs
+		if len(rc.arrived) > 0 {
+			rc.viol = append(rc.viol, "stray-call|gated replica calls still pending after StoreDocuments returned")
+		}
+	}
 	if len(rc.pending) > 0 {
 		rc.viol = append(rc.viol, "stray-call|replica calls outside any circuit-breaker execution")
 	}
@@ -929,6 +1032,14 @@ func emit(w *casefile.Writer, sc *script, res *result) {
 		emitSeq(w, sc, res)
 		return
 	}
+	if sc.Ilv != nil {
+		emitIlv(w, sc, res)
+		return
+	}
+	if sc.Ragged {
+		emitRagged(w, sc, res)
+		return
+	}
 	for _, v := range res.Viol {
 		fp, what, _ := strings.Cut(v, "|")
 		w.Violate(fp, what, sc)
@@ -977,7 +1088,11 @@ func emit(w *casefile.Writer, sc *script, res *result) {
 		coldSkip = true
 	}
 	w.Count("gen:" + sc.Gen)
-	w.Count(fmt.Sprintf("topo:hot=%dx%d", len(sc.Hot), len(sc.Hot[0].Reps)))
+	if strings.HasPrefix(sc.Gen, "ragged") {
+		w.Count("topo:ragged")
+	} else {
+		w.Count(fmt.Sprintf("topo:hot=%dx%d", len(sc.Hot), len(sc.Hot[0].Reps)))
+	}
 	if len(sc.Cold) == 0 {
 		w.Count("topo:cold=none")
 	} else {
@@ -1035,7 +1150,7 @@ func main() {
 		fmt.Fprintln(os.Stderr, "need -out")
 		os.Exit(2)
 	}
-	w, err := casefile.New(*out, "C09", "From VLib Require Import CaseLib.\nFrom C09 Require Import Model CaseDefs.", 400)
+	w, err := casefile.New(*out, "C09", "From VLib Require Import CaseLib.\nFrom C09 Require Import Model ModelIlv CaseDefs.", 400)
 	if err != nil {
 		panic(err)
 	}
